@@ -154,6 +154,7 @@ fn uniq_class_hashes(depth: u8) -> Vec<u64> {
 
 pub fn run(ctx: &Ctx) -> i32 {
   let quick = ctx.quick();
+  let (lit_ints, _) = crate::alpha::source_literals();
   // jobs
   #[derive(Clone)]
   enum Job {
@@ -162,6 +163,8 @@ pub fn run(ctx: &Ctx) -> i32 {
     Structured(&'static str, u8),  // structured values x structured values
     UniqAll(u8, u64, u64),
     UniqClass(u8),
+    Literals(u8),                  // coordinates taken from the integer literals of the sources, all pairs
+    Windows(&'static str, u8, u32, u32), // all pairs of values of a 12-bit window at the same offset in i and j, i-window values [lo, hi)
   }
   let mut jobs: Vec<Job> = vec![];
   for d in 1..=8u8 {
@@ -205,6 +208,21 @@ pub fn run(ctx: &Ctx) -> i32 {
   }
   for d in (d_uniq + 1)..=29 {
     jobs.push(Job::UniqClass(d));
+    if d >= 17 {
+      jobs.push(Job::Literals(d));
+    }
+  }
+  // double windows: EVERY pair of values of a 12-bit window placed at the same offset in i and in
+  // j (offsets 0..=17 at depth 29, other bits zero): a guard on the middle bits of both coordinates
+  {
+    let impls: Vec<&'static str> = if quick { vec!["get_zoc"] } else { impl_names() };
+    for name in impls {
+      for off in 0..=17u32 {
+        for lo in (0..4096u32).step_by(256) {
+          jobs.push(Job::Windows(name, 29, off, lo));
+        }
+      }
+    }
   }
   let mut total = par_jobs(jobs.len(), |k| {
     let mut part = Part::new();
@@ -237,6 +255,15 @@ pub fn run(ctx: &Ctx) -> i32 {
         }
         part.stratum("uniq-all-hashes", hi - lo, 6 * (hi - lo));
         part.validated += hi - lo;
+      }
+      Job::Literals(d) => {
+        let v = crate::alpha::literal_coords(&lit_ints, d);
+        check_grid("get_zoc", d, &v, &v, "source-literal-pairs", &mut part);
+      }
+      Job::Windows(name, d, off, lo) => {
+        let vi: Vec<u32> = (lo..lo + 256).map(|w| w << off).collect();
+        let vj: Vec<u32> = (0..4096u32).map(|w| w << off).collect();
+        check_grid(name, d, &vi, &vj, "double-12-bit-windows", &mut part);
       }
       Job::UniqClass(d) => {
         let hs = uniq_class_hashes(d);
